@@ -177,7 +177,7 @@ structure Api where
   eng : Eng
   flushing : Bool := false     -- `p->flushing`
   error : Bool := false        -- `p->error != 0`
-  maxIlen : Nat := 0           -- `p->max_ilen` (0 after `soxr_clear`, see F11)
+  maxIlen : Nat := 0           -- `p->max_ilen` (kept by `soxr_clear`)
   hasFn : Bool := false
   deriving Repr, Inhabited
 
@@ -210,7 +210,8 @@ structure PullLog where
   deriving Repr, Inhabited
 
 /-- the `do … while` of `soxr_output`, fuelled by the script length + 1 iterations guard.
-    `script` is what the input function will answer, call by call (clamped to the request by the harness). -/
+    `script` is what the input function will answer, call by call (clamped to the request by the harness).
+    The request log is kept newest first. -/
 def pullLoop (num : Num) (fuel : Nat) (len0 ilen : Nat) :
     Nat → Api → Nat → Nat → List Supply → List Nat → Option (Api × Nat × List Supply × List Nat)
   | 0, _, _, _, _, _ => none
@@ -224,22 +225,26 @@ def pullLoop (num : Num) (fuel : Nat) (len0 ilen : Nat) :
         match script with
         | [] => some (a1, odone0', [], reqs)           -- script exhausted: report what was reached
         | r :: rest =>
-          let reqs' := reqs ++ [ilen]
+          let reqs' := ilen :: reqs
           let was := a1.flushing
-          let (a2, idone) := match r with
-            | .fail => ({ a1 with error := true }, 0)
-            | .eof => (a1.input 0, 0)
-            | .data n => (a1.input n, n)
-          if odone != 0 || idone != 0 || (!was && a2.flushing) then
-            pullLoop num fuel len0 ilen k a2 (olen - odone) odone0' rest reqs'
-          else some (a2, odone0', rest, reqs')
+          match r with
+          | .fail => some ({ a1 with error := true }, odone0', rest, reqs')      -- `break` on failure
+          | _ =>
+            let (a2, idone) := match r with
+              | .data n => (a1.input n, n)
+              | _ => (a1.input 0, 0)
+            if odone != 0 || idone != 0 || (!was && a2.flushing) then
+              pullLoop num fuel len0 ilen k a2 (olen - odone) odone0' rest reqs'
+            else some (a2, odone0', rest, reqs')
 
 /-- `soxr_output(p, out, len0)`. -/
 def Api.output (num : Num) (fuel : Nat) (a : Api) (len0 : Nat) (script : List Supply) :
     Option (Api × Nat × List Supply × List Nat) :=
   if a.error then some (a, 0, script, []) else
   let ilen := min a.maxIlen (num.iForO len0)
-  pullLoop num fuel len0 ilen (script.length + 2) a len0 0 script []
+  match pullLoop num fuel len0 ilen (script.length + 2) a len0 0 script [] with
+  | none => none
+  | some (a', od, rest, reqs) => some (a', od, rest, reqs.reverse)
 
 /-- `soxr_process(p, in, ilen0, idone0, out, olen, odone0)` for the generic (not both-split) path.
     `hasIn = false` is `in == NULL`; `flushReq` is the `~ilen` convention; `useIdone` is `idone0 != NULL`. -/
